@@ -1146,6 +1146,7 @@ func (h *HttpServer) runProduceLoopCapped(ctx context.Context, writer *ipc.Write
 				if werr != nil {
 					h.logIPCWriteErr("data-batch", info.Name, werr)
 					ab.batch.Release()
+					out.releaseFrom(i + 1)
 					return false, werr
 				}
 				dataBatches++
@@ -1156,6 +1157,7 @@ func (h *HttpServer) runProduceLoopCapped(ctx context.Context, writer *ipc.Write
 					h.logIPCWriteErr("log-batch", info.Name, werr)
 					batchWithMeta.Release()
 					ab.batch.Release()
+					out.releaseFrom(i + 1)
 					return false, werr
 				}
 				batchWithMeta.Release()
@@ -1163,6 +1165,7 @@ func (h *HttpServer) runProduceLoopCapped(ctx context.Context, writer *ipc.Write
 				if werr := writer.Write(ab.batch); werr != nil {
 					h.logIPCWriteErr("batch", info.Name, werr)
 					ab.batch.Release()
+					out.releaseFrom(i + 1)
 					return false, werr
 				}
 			}
